@@ -1,6 +1,7 @@
 CONSTANTS N = 3  Shapes = {"empty", "nonl", "multi", "mlike"}  Statuses = {0, 3}  Pres = {"none"}
 CONSTANTS AllowTimeout = TRUE  AllowKill = TRUE
 CONSTANTS FallbackShell = TRUE  CloseOnFailure = TRUE  FallbackOnTimeout = FALSE  PreambleInShell = FALSE
+CONSTANTS UtfLen = 2  UtfWidths = {1, 2, 3, 4}  IncrementalDecode = TRUE
 INIT MCInit
 NEXT MCNext
 VIEW View
